@@ -2,7 +2,9 @@ use core::{cell::Cell, fmt, marker::PhantomData};
 
 use serde::{
     de::{
-        self, value::MapAccessDeserializer, DeserializeSeed, IntoDeserializer, MapAccess, Visitor,
+        self,
+        value::{BorrowedStrDeserializer, MapAccessDeserializer},
+        DeserializeSeed, IntoDeserializer, MapAccess, Visitor,
     },
     Deserialize, Deserializer,
 };
@@ -41,6 +43,78 @@ where
                 let more_cell = Cell::new(None);
                 let upgrade_cell = Cell::new(None);
 
+                // A member name: one of the flags, or something for the method type. Names are
+                // taken as they come, borrowed from the input or not (a name spelled with JSON
+                // escapes can not be borrowed).
+                enum Key<V> {
+                    Oneway,
+                    More,
+                    Upgrade,
+                    Other(V),
+                }
+                struct KeySeed<'s, K>(&'s mut Option<K>);
+                impl<'de, 's, K> KeySeed<'s, K>
+                where
+                    K: DeserializeSeed<'de>,
+                {
+                    fn classify<E, D>(
+                        self,
+                        name: &str,
+                        other: impl FnOnce() -> D,
+                    ) -> Result<Key<K::Value>, E>
+                    where
+                        E: de::Error,
+                        D: Deserializer<'de, Error = E>,
+                    {
+                        match name {
+                            "oneway" => Ok(Key::Oneway),
+                            "more" => Ok(Key::More),
+                            "upgrade" => Ok(Key::Upgrade),
+                            _ => match self.0.take() {
+                                Some(seed) => seed.deserialize(other()).map(Key::Other),
+                                None => Err(E::custom("member name requested twice")),
+                            },
+                        }
+                    }
+                }
+                impl<'de, 's, K> DeserializeSeed<'de> for KeySeed<'s, K>
+                where
+                    K: DeserializeSeed<'de>,
+                {
+                    type Value = Key<K::Value>;
+
+                    fn deserialize<D>(self, deserializer: D) -> Result<Self::Value, D::Error>
+                    where
+                        D: Deserializer<'de>,
+                    {
+                        deserializer.deserialize_str(self)
+                    }
+                }
+                impl<'de, 's, K> Visitor<'de> for KeySeed<'s, K>
+                where
+                    K: DeserializeSeed<'de>,
+                {
+                    type Value = Key<K::Value>;
+
+                    fn expecting(&self, f: &mut fmt::Formatter<'_>) -> fmt::Result {
+                        write!(f, "a member name")
+                    }
+
+                    fn visit_str<E>(self, name: &str) -> Result<Self::Value, E>
+                    where
+                        E: de::Error,
+                    {
+                        self.classify(name, || name.into_deserializer())
+                    }
+
+                    fn visit_borrowed_str<E>(self, name: &'de str) -> Result<Self::Value, E>
+                    where
+                        E: de::Error,
+                    {
+                        self.classify(name, || BorrowedStrDeserializer::new(name))
+                    }
+                }
+
                 // 2) Streaming adapter capturing booleans by Cell refs
                 struct FilterMap<'a, MAcc> {
                     inner: MAcc,
@@ -58,30 +132,27 @@ where
                     where
                         K: DeserializeSeed<'de>,
                     {
-                        while let Some(key) = self.inner.next_key::<&str>()? {
-                            match key {
-                                "oneway" => {
+                        // The method type's seed is handed to the first member name that is not
+                        // one of ours.
+                        let mut seed = Some(seed);
+                        loop {
+                            match self.inner.next_key_seed(KeySeed(&mut seed))? {
+                                None => return Ok(None),
+                                Some(Key::Oneway) => {
                                     let v = self.inner.next_value()?;
                                     self.oneway.set(Some(v));
-                                    continue;
                                 }
-                                "more" => {
+                                Some(Key::More) => {
                                     let v = self.inner.next_value()?;
                                     self.more.set(Some(v));
-                                    continue;
                                 }
-                                "upgrade" => {
+                                Some(Key::Upgrade) => {
                                     let v = self.inner.next_value()?;
                                     self.upgrade.set(Some(v));
-                                    continue;
                                 }
-                                other => {
-                                    let de = other.into_deserializer();
-                                    return seed.deserialize(de).map(Some);
-                                }
+                                Some(Key::Other(v)) => return Ok(Some(v)),
                             }
                         }
-                        Ok(None)
                     }
 
                     fn next_value_seed<V>(&mut self, seed: V) -> Result<V::Value, MAcc::Error>
